@@ -32,6 +32,9 @@ EXPRESSIONS (e : T means "e has inferred type T")
   a if c else b                 if c then a else b
   len(l) prod(l) math.prod(l) sum(l) list(l) tuple(l)          py_len py_prod py_prod py_sum, identity, identity
   [a, b], (a, b), l[i], l[a:], p[0] / p[1] on a pair           list, pair, py_index (IndexError), py_slice_from, fst / snd
+  l[a:b]                                                        py_slice l a b (never raises; negative bounds from the end, clipped)
+  zip(a, b, .., strict=True) (2 to 4 sequences)                 py_zip_strict, nested to the left: ValueError when the lengths differ
+  x is None, x is not None                                      for x of a type `option T`: py_is_none x, negb (py_is_none x)
   filter(lambda t: c, l), all(c for t in l), all(l)            List.filter, List.forallb with a pure c / on a list of bools
   any(c for t in l)                                             negb (forallb (fun t => negb c) l); any(not c ..) = negb (forallb c ..)
   [e for x in l], tuple(e for x in l), list(e for x in l)      map (fun x => e) l;  py_mapM (left to right) when e can raise;
@@ -78,6 +81,8 @@ STATEMENTS (a block is translated together with "what follows it", so a variable
   x = d                         for a never-aliased local dict d of trees: x is a reference to d (ref_root d)
   x[k] = v                      for a reference x into d: re-binding of d to what ref_setitem x k v returns (TypeError on a plain
                                 value, UnmodelledEffect on a tensor); the references into d are stale afterwards and cannot be used
+  x.extend(l)                   re-binding of x to x ++ l (same condition on x as append)
+  continue                      inside a translated for loop: the rest of the body is skipped (the loop state as it is)
   x[i] = e, x.append(e)         re-binding of x to py_setitem x i e / x ++ [e]; only if x is a local initialised by a list
   x[i] += e, x[i] -= e          display, a list comprehension, list(..) or [..] * n that is never aliased (never bound to another
                                 name, stored or passed on), or a list owned by self listed in Target.state (below)
@@ -93,7 +98,8 @@ STATEMENTS (a block is translated together with "what follows it", so a variable
                                 `if (y := e) <op> ...` binds y first; `if [not] isinstance(x, Sequence)` on a parameter whose type is
                                 listed in UNIONS is a match on x; x has the type of the case in the branch AND in the copy of what
                                 follows (falling back to the union type there if the narrowed type does not support a use)
-  for x in l: / for a, b in l:  bind (py_for (fun state x => body; Ret state) l state) (fun state => rest); state = the locals
+  for x in l: / for a, (b, c) in l: (any nesting of names matching the element type)
+                                bind (py_for (fun state x => body; Ret state) l state) (fun state => rest); state = the locals
                                 bound before the loop that the body re-binds; no return/break/continue inside
   return e / raise E(..) / assert c          Ret e / Raise E k / if c then rest else Raise AssertionError k;
                                 k = Target.site_base + ordinal of the statement among the raise/assert statements of the function;
@@ -104,7 +110,7 @@ STATEMENTS (a block is translated together with "what follows it", so a variable
                                 `return e` and calls the enclosing function back (mutual recursion) is not lifted: each call of it
                                 is replaced by e with the arguments substituted, so that the enclosing function is directly recursive
   docstrings, pass, calls listed in Target.ignore_calls (logging), bare f-strings whose fields cannot raise      no effect
-  decorators                    only staticmethod / classmethod / abstractmethod / torch.no_grad() (no effect on the value)
+  decorators                    only staticmethod / classmethod / abstractmethod / torch.no_grad() / torch.compiler.disable (no effect on the value)
 STATE    Target.state lists `self.x` attributes (lists) that the function updates in place: they become parameters AND results -
          the function returns Ret (Returned v | Raised E k, final lists) (PyPrelude.completion), so an update made before a
          `raise` statement is kept.  Such a function cannot be called from translated code.
@@ -114,7 +120,7 @@ TARGET MODES  "function": a def (possibly a method, found by qualified name); it
           "decision": one `if` statement of a loop body (Target.stop_before), or a whole function body (stop_before = None), as the
           function (tags of the actions executed, in order; ends with `continue` / `return`?) of Target.atoms.  An action is an
           assignment / expression statement / return whose source text starts with a key of Target.actions (a statement with tensor
-          side effects: what it computes is not a value here); `return x` of a name ends the function; an `if` whose branches only
+          side effects: what it computes is not a value here; `return E` counts as the action `x = E`); `return x` of a name ends the function; an `if` whose branches only
           log is dropped even if its test is not translatable; raise statements are `Raise E k` as usual;
           "alias": Class.method resolved through the single-inheritance chain of classes in the file: the translation of the
           defining class's method (an earlier target) gets the name Target.coq_name, `Ret tt` if no class of the chain defines it
@@ -123,7 +129,9 @@ TARGET MODES  "function": a def (possibly a method, found by qualified name); it
           once in the function, by `x = e` earlier in the same statement list, is replaced by e (assumption, as for the atoms:
           the statements in between do not change what the atoms of e denote);  "prefix": the statements
           of a function up to (excluding) the first statement whose text starts with Target.stop_before, returning the tuple
-          Target.returns of locals.
+          Target.returns of locals; statements whose text starts with an entry of Target.drop are left out of this slice - allowed
+          only if what they write (names bound, receivers of mutating method calls) is read by no kept statement: the result is
+          the value of the returned locals PROVIDED the function completes.
 """
 from __future__ import annotations
 
@@ -906,6 +914,9 @@ class Fn:
             s = ast.fix_missing_locations(ast.copy_location(ast.If(test=s.value.test, body=[mk(s.value.body)], orelse=[mk(s.value.orelse)]), s))
         callee = unp(s.value.func) if isinstance(s, (ast.Assign, ast.Expr, ast.Return)) and isinstance(s.value, ast.Call) else None
         tag = next((t for pre, t in self.tgt.actions.items() if unp(s).startswith(pre) or callee == pre), None) if self.tgt.actions else None
+        if tag is None and self.tgt.actions and isinstance(s, ast.Return) and s.value is not None:
+            # `return E` where `x = E` is a named action: the same computation, returned directly
+            tag = next((t for pre, t in self.tgt.actions.items() if re.match(r"^[A-Za-z_][A-Za-z_0-9]* = ", pre) and pre.split(" = ", 1)[1] == unp(s.value)), None)
         if tag is not None and isinstance(s, (ast.Assign, ast.Expr, ast.Return)):  # decision mode: a statement with (tensor) side effects
             code = f"let acts_ := (acts_ ++ [({tag})]) in\n"                       # is recorded by its tag; what it binds is not a value here
             return code + ("Ret (acts_, true)" if isinstance(s, ast.Return) else nxt(env))
@@ -1326,7 +1337,7 @@ class Translator:
         if not isinstance(node, ast.FunctionDef):
             raise Untranslatable(tgt.qualname, "not a function definition")
         for d in node.decorator_list:                      # a decorator may change what a call of the function does
-            if unp(d) not in ("staticmethod", "classmethod", "abstractmethod", "torch.no_grad()"):
+            if unp(d) not in ("staticmethod", "classmethod", "abstractmethod", "torch.no_grad()", "torch.compiler.disable"):
                 raise Untranslatable(d, "decorator outside the subset")
         return src, node
 
